@@ -15,6 +15,7 @@ IsEv(e) == l <= Len(Rec) /\ Rec[l].ev = e
 Adv == l' = l + 1
 TReset == IsEv("reset") /\ Adv /\ cell' = [i \in 1..MaxCells |-> 0] /\ cur' = [t \in Thread |-> 1] /\ val' = [t \in Thread |-> 0]
           /\ refs' = [t \in Thread |-> <<>>] /\ lost' = {}
+          /\ lentN' = 0 /\ lpos' = [t \in Thread |-> 0] /\ lseen' = [t \in Thread |-> 0] /\ lrefs' = [t \in Thread |-> <<>>]
 TPush == IsEv("push") /\ Adv /\ PushBegin(Rec[l].t, Rec[l].id)
 \* make_ref returned: the push is complete and the fresh reference reads its own value
 TGot == /\ IsEv("got") /\ Adv /\ LET t == Rec[l].t IN
@@ -27,14 +28,23 @@ TReread == /\ IsEv("reread") /\ Adv /\ LET t == Rec[l].t IN
               /\ Len(Rec[l].reads) = Len(refs[t])
               /\ \A k \in 1..Len(refs[t]) : Rec[l].reads[k] = Reads(t, k) /\ Rec[l].reads[k] = refs[t][k][1]
            /\ UNCHANGED chvars
+\* the lending method was called / returned a reference reading `read`
+TLBegin == IsEv("lbegin") /\ Adv /\ LentBegin(Rec[l].t)
+TLent == /\ IsEv("lent") /\ Adv /\ LET t == Rec[l].t IN lpos[t] > 0 /\ Rec[l].read = LentAt(lpos[t]) /\ LentEnd(t)
+\* after everybody finished: every reference to a lent return reads what it read when it was obtained
+TLReread == /\ IsEv("lreread") /\ Adv /\ LET t == Rec[l].t IN
+               /\ Len(Rec[l].reads) = Len(lrefs[t])
+               /\ \A k \in 1..Len(lrefs[t]) : Rec[l].reads[k] = lrefs[t][k][2]
+            /\ UNCHANGED chvars
 \* lent values are destroyed exactly once, and not before the instance owning them is dropped
 TDrops == /\ IsEv("drops") /\ Adv
           /\ Rec[l].before = <<>>
-          /\ ToSet(Rec[l].after) = ({ cell[i] : i \in 1..MaxCells } \ {0}) \cup lost
+          /\ ToSet(Rec[l].after) = ({ cell[i] : i \in 1..MaxCells } \ {0}) \cup lost \cup (IF lentN > 0 THEN ToSet(LentIds) ELSE {})
+          /\ LentExact
           /\ Rec[l].twice = <<>>
           /\ UNCHANGED chvars
 TInternal == (\E t \in Thread : IF Solo(t) THEN TryInsertSolo(t) ELSE ChInternal(t)) /\ UNCHANGED l
-TNext == TReset \/ TPush \/ TGot \/ TReread \/ TDrops \/ TInternal
+TNext == TReset \/ TPush \/ TGot \/ TReread \/ TDrops \/ TLBegin \/ TLent \/ TLReread \/ TInternal
 TSpec == (ChInit /\ l = 1) /\ [][TNext]_tv
 \* The register holds the highest trace position reached.  Validation asks whether SOME behaviour of the specification
 \* explains the trace: once one has consumed every event nothing else needs exploring (the constraint turns FALSE), which
